@@ -23,8 +23,16 @@ RULE = ('A case is (module, optimize); the decoded journal is compared element-w
         'axiom or two claims.')
 ASSUMPTIONS = ['a shared submodule reached through two import edges is declared twice (its axioms are expected once per edge)']
 FLOORS = {'quick': {'cases': 1500, 'journals_compared': 1400, 'modules_with_10_symbols': 30, 'oversize_refused': 4, 'oversize_refused_by_main': 4, 'main_entry_point_runs': 12, 'exactly_256_ids_ok': 2, 'optimize_pairs_compared': 700,
-                    'modules_with_imports': 200, 'declaration_from_generator_record': 1000, 'modules_with_axiomless_middle_import': 50, 'modules_with_duplicate_axiom_attempt': 50}}
+                    'modules_with_imports': 200, 'declaration_from_generator_record': 1000, 'modules_with_axiomless_middle_import': 50, 'modules_with_duplicate_axiom_attempt': 50, 'modules_with_bulk_declaration_repeat_first': 40}}
 FLOORS['thorough'] = dict(FLOORS['quick'], cases=30000, journals_compared=29000)
+
+
+def _declare(b, a):
+    """one more axiom for the top module, also entered in the generator's own record of declarations"""
+    b.mod.add_axiom(a)
+    lst = getattr(b, 'own', {}).get(id(b.mod))
+    if lst is not None and not any(a == x for x in lst):
+        lst.append(a)
 
 
 def declared_axioms(mod):
@@ -150,10 +158,10 @@ def shard(ctx):
                     t = P.Symbol(syms[0])
                     for sname in rng.sample(syms, min(len(syms), rng.randint(10, 20))):
                         t = P.App(t, P.Symbol(sname))
-                    b.mod.add_axiom(t)
+                    _declare(b, t)
                 if rng.random() < 0.3 and b.mod.get_axioms():
                     # declaring an axiom twice must not publish it twice, nor drop the first
-                    b.mod.add_axiom(b.mod.get_axioms()[0])
+                    _declare(b, b.mod.get_axioms()[0])
                     ctx.count('modules_with_duplicate_axiom_attempt')
         except Exception as ex:
             ctx.violation('module_construction_raises:' + type(ex).__name__, 'building a module raised', {'error': repr(ex)[:300]})
@@ -174,6 +182,8 @@ def shard(ctx):
                 ctx.count('modules_with_10_symbols')
             if 'imports' in b.tags:
                 ctx.count('modules_with_imports')
+            if 'bulk_declaration_with_repeat_first' in b.tags:
+                ctx.count('modules_with_bulk_declaration_repeat_first')
             if 'import_chain_through_axiomless_module' in b.tags:
                 ctx.count('modules_with_axiomless_middle_import')
             ctx.case(g + b'|' + c, nontrivial=(g != b'' or c.count(b'\x1e') >= 2))
